@@ -112,7 +112,9 @@ var cssDecl = rapid.Custom(func(t *rapid.T) string {
 		"border/**/-image", "color/**/-scheme", "margin/*x*/-inline-start", "overflow/* */-x", "width/**//**/-x", "display/**/\\2d x", "border-/**/image"}).Draw(t, "prop")
 	val := rapid.SampledFrom([]string{"red", "1px", "fixed", "url(javascript:alert(1))", "expression(alert(1))", "'a;position:fixed'", "\"x", "red&#59position:fixed", "red&#x3b;top:0", "red&amp;#59left:0", "red&#38;#59;z-index:9", "\"a&#34;;behavior:url(x)", `"a\'; position: fixed; top:0; \'"`, `'a\"; position:fixed; left:0; \"'`, `"\\'; top:0; '"`, `"a\\"; behavior:url(x); "`, "(a;b)", "{a:b}", "0 !important", "url('x')", `x\;y`, "a/*;*/b", "\n", "1;",
 		// a malformed url( ends, for a browser, at the first ')' whatever quotes it contains
-		"url(a '", "url(a \"", "URL(x '", `u\72l(a '`, "url(a(", "')", "\")", "url(a ');position:fixed;color:')"}).Draw(t, "val")
+		"url(a '", "url(a \"", "URL(x '", `u\72l(a '`, "url(a(", "')", "\")", "url(a ');position:fixed;color:')",
+		// a hex escape may be ended by one white-space character that belongs to it: these all spell url(
+		`u\72 l(a ');position:fixed;color:')`, `\75 rl(a ');position:fixed;color:')`, "u\\72\tl(a \");position:fixed;color:\")", `ur\6c (a ');top:0;color:')`, `\000075rl(a ');left:0;color:')`, `u\72 l(a '`}).Draw(t, "val")
 	sep := rapid.SampledFrom([]string{":", ": ", " : ", "/**/:", ":/**/"}).Draw(t, "sep")
 	return prop + sep + val
 })
